@@ -6,7 +6,7 @@ From Coq Require Import List String Ascii ZArith Bool Arith Lia Permutation.
 From Coq.Strings Require Import Byte.
 From Verif Require Import Base Ops Interp Unparse Severity Analysis AnalysisTable ShowVM Cache
   SeverityProofs AnalysisProofs.
-From Verif Require Codec CodecProofs.
+From Verif Require Codec CodecProofs CodecTruncProofs.
 Import ListNotations.
 Local Open Scope nat_scope.
 Local Open Scope list_scope.
@@ -792,6 +792,25 @@ Proof.
   - rewrite CodecProofs.dumps_shift. destruct (CodecProofs.load_stream_exact _ _ _ _ H) as (D & _). rewrite D.
     unfold Codec.read_at. cbn [skipn]. rewrite Nat.sub_0_r, firstn_all. reflexivity.
   - symmetry. apply strip_shift.
+Qed.
+
+(* ... and without assuming anything about the bytes: for EVERY successful Pickled.load (bytes, seekable
+   stream at any offset, non-seekable stream), Pickled.load(p.dumps()) succeeds, consumes exactly those
+   bytes, re-serialises to them, and has the same opcode classes and encodings
+   (CodecTruncProofs.load_stream_truncate: truncation invariance of the token loop) *)
+Lemma reparse_strip : forall k bs off r,
+  Codec.load_model k bs off = Codec.LOk r ->
+  exists d r',
+    Codec.dumps (Codec.l_ops r) = Ok d /\
+    Codec.load_model Codec.KBytes d 0 = Codec.LOk r' /\
+    Codec.l_end r' = List.length d /\
+    map strip (Codec.l_ops r') = map strip (Codec.l_ops r) /\
+    Codec.dumps (Codec.l_ops r') = Ok d.
+Proof.
+  intros k bs off r H.
+  destruct (CodecTruncProofs.reparse_model k bs off r H) as (d & r' & sh & D & L & E & EO & D').
+  exists d, r'. repeat (split; [assumption|]). split; [|exact D'].
+  rewrite EO. symmetry. apply strip_shift.
 Qed.
 
 (* ========================================================================================== *)
